@@ -375,6 +375,12 @@ func (c *C07Case) viaCompiler() (*Violation, string) {
 	case 6: // length positional only, font from the config default
 		params = []string{fmt.Sprint(c.MaxLen)}
 		font.Lines, font.Overlap = c.Lines, c.Overlap
+	case 7: // only a named fontId: every other setting must come from THAT font, not from the default font
+		params = []string{named("fontId", `"F"`)}
+		font.MaxLen, font.Lines, font.Overlap = c.MaxLen, c.Lines, c.Overlap
+	case 8: // positional fontId only
+		params = []string{`"F"`}
+		font.MaxLen, font.Lines, font.Overlap = c.MaxLen, c.Lines, c.Overlap
 	}
 	if c.FontID == "TEST" {
 		return nil, ""
@@ -386,8 +392,8 @@ func (c *C07Case) viaCompiler() (*Violation, string) {
 	cc := *c
 	cc.Font = font
 	o.FontJSON = cc.fontJSON()
-	if c.Plumb == 5 {
-		// default font of the config is G; F is selected by the CLI default
+	if c.Plumb == 5 || c.Plumb == 7 || c.Plumb == 8 {
+		// default font of the config is G; F is selected by the CLI default / the fontId parameter
 		o.FontJSON = strings.Replace(o.FontJSON, `"defaultFontId":"F"`, `"defaultFontId":"G"`, 1)
 	}
 	src := "text T {\n\tformat(" + lit
@@ -502,7 +508,7 @@ func genC07(t *rapid.T) *C07Case {
 		c.MaxLen = 1
 	}
 	if rapid.IntRange(0, 3).Draw(t, "viacompiler") == 0 && c.FontID == "F" {
-		c.Plumb = rapid.IntRange(1, 6).Draw(t, "plumb")
+		c.Plumb = rapid.IntRange(1, 8).Draw(t, "plumb")
 	}
 	return c
 }
@@ -513,7 +519,7 @@ func TestC07_Regress(t *testing.T) { runRegress(t, "C07") }
 
 func TestC07_Format(t *testing.T) {
 	st := stat("C07")
-	st.SetRule("texts of 1-14 items (words over ASCII and multi-byte letters, punctuation and {CONTROL} codes with and without arguments glued inside words; explicit \\n \\l \\p \\N glued or spaced; runs of spaces) with a generated font table (per-glyph widths 0-12, optional default, control-code and space widths incl. 0) or the TEST font; maxLineLength = width of a random run of words -1/0/+1 (optionally + overlap), numLines 1-4, cursor overlap 0 / small / wider than a word; 3 in 4 cases call FormatText directly, 1 in 4 go through text T { format(...) } with the parameters given positionally (both orders), by name, by font config, or by the CLI defaults. oracle: overlap 0 => output equals the harness' greedy reference formatter; always => envelope (words and explicit breaks in order and unchanged, only single spaces, line width <= max resp. max - overlap on prompt lines unless a single word, every inserted break necessary, \\n / \\l discipline with \\p reset). non-trivial = >= 1 inserted break and a line within 1 pixel of its limit; distinct by (text, parameters)")
+	st.SetRule("texts of 1-14 items (words over ASCII and multi-byte letters, punctuation and {CONTROL} codes with and without arguments glued inside words; explicit \\n \\l \\p \\N glued or spaced; runs of spaces) with a generated font table (per-glyph widths 0-12, optional default, control-code and space widths incl. 0) or the TEST font; maxLineLength = width of a random run of words -1/0/+1 (optionally + overlap), numLines 1-4, cursor overlap 0 / small / wider than a word; 3 in 4 cases call FormatText directly, 1 in 4 go through text T { format(...) } with the parameters given positionally (both orders), by name, by font config (of the default font, or of the font named by a positional / named fontId while another font is the default), or by the CLI defaults. oracle: overlap 0 => output equals the harness' greedy reference formatter; always => envelope (words and explicit breaks in order and unchanged, only single spaces, line width <= max resp. max - overlap on prompt lines unless a single word, every inserted break necessary, \\n / \\l discipline with \\p reset). non-trivial = >= 1 inserted break and a line within 1 pixel of its limit; distinct by (text, parameters)")
 	st.Assume("backslashes occur only as the four break codes; braces are balanced and not nested", "the cursor overlap is demanded on lines ending in \\p, or in \\l at paragraph line index >= numLines-1 (weakest reading)", "a named/positional parameter value <= 0 means 'use the font config value'")
 	runRapid(t, "C07", "TestC07_Format", genC07, checkC07, c07Src)
 }
